@@ -232,6 +232,22 @@ def oracle(g, r):
         for rk, toks in nsc.items():
             if toks != ['1', str(2 * g['n'])]:
                 F('num_sets / size after clear() and reuse are %s on rank %d, expected 1 and %d' % (toks, rk, 2 * g['n'])); break
+        # all_find with items that never appeared in a union
+        known = {500000 + k for k in range(g['n'])} | {600000 + k for k in range(g['n'])}
+        for l in r['lines']:
+            m = re.match(r'FU (\d+) :(.*)', l)
+            if not m:
+                continue
+            rk = int(m.group(1))
+            reps = dict(map(int, t.split(',')) for t in m.group(2).split())
+            want_keys = {500000 + rk, 600000 + rk, 910001, 910002, 920000 + rk}
+            if set(reps) != want_keys:
+                F('all_find of %s on rank %d answered for %s' % (sorted(want_keys), rk, sorted(reps))); break
+            bad = [x for x in (910001, 910002, 920000 + rk) if reps[x] != x]
+            if bad:
+                F('all_find on rank %d: item %d never appeared in a union, so it is a set of its own, but its representative is %d' % (rk, bad[0], reps[bad[0]])); break
+            if reps[500000 + rk] != reps[600000 + rk] or reps[500000 + rk] not in known:
+                F('all_find on rank %d: %d and %d are connected, representatives %d and %d' % (rk, 500000 + rk, 600000 + rk, reps[500000 + rk], reps[600000 + rk])); break
     elif r['verdict'] == 'ok':
         F('no output of the clear-and-reuse phase')
     return fails, stats
